@@ -847,33 +847,24 @@ class Envelope:
         if self.expansion_level == ExpansionLevel.Vector:
             assert isinstance(self.state, jnp.ndarray)
             assert self.state.shape == (self.dimensions, 1)
-            reshape_shape.append(1)
+            if len(states) == 2:
+                # Nothing is traced out, the state is ordered as requested (reorder)
+                return self.state
+
+            # Reshape into a (kept state) x (traced out state) matrix
             ps = self.state.reshape(reshape_shape)
+            if states[0].index == 1:
+                ps = ps.transpose([1, 0])
 
-            # Construct Einsum string
-            c1 = itertools.count(start=0)
-            einsum_list_list: List[List[int]] = [[], []]
-            einsum_to = next(c1)
+            # The kept state is pure only if it is not entangled with the other
+            # one: then every column is proportional to that state
+            norms = jnp.linalg.norm(ps, axis=0)
+            column = int(jnp.argmax(norms))
+            if jnp.abs(norms[column] ** 2 - jnp.sum(norms**2)) < 1e-12:
+                return (ps[:, column] / norms[column]).reshape((-1, 1))
 
-            for s in state_order:
-                if s not in states:
-                    c = einsum_to
-                else:
-                    c = next(c1)
-                einsum_list_list[0].append(c)
-                if s in states:
-                    einsum_list_list[1].append(c)
-            c = next(c1)
-            einsum_list_list[0].append(c)
-            einsum_list_list[1].append(c)
-            einsum_list_str = [
-                "".join([chr(97 + x) for x in s]) for s in einsum_list_list
-            ]
-            einsum = f"{einsum_list_str[0]}->{einsum_list_str[1]}"
-            ps = jnp.einsum(einsum, ps)
-
-            dim = int(jnp.prod(jnp.array([s.dimensions for s in states])))
-            return ps.reshape(dim, 1)
+            # Otherwise the reduced state is mixed: return the density matrix
+            return jnp.matmul(ps, jnp.conj(ps.T))
 
         if self.expansion_level == ExpansionLevel.Matrix:
             assert isinstance(self.state, jnp.ndarray)
